@@ -583,8 +583,11 @@ func (s *Solver) oneShotCVC5(extra *Term, wantModel bool, vars []*Term, ms int) 
 	out, _ := cmd.CombinedOutput()
 	text := string(out)
 	lines := strings.SplitN(text, "\n", 2)
+	if strings.TrimSpace(lines[0]) == "unsat" {
+		return Unsat, nil
+	}
 	if strings.Contains(text, "(error") {
-		fmt.Fprintf(os.Stderr, "solver cvc5: %s\n", strings.TrimSpace(text))
+		fmt.Fprintf(os.Stderr, "solver cvc5: %s\n", firstN(strings.TrimSpace(text), 300))
 		return Unknown, nil
 	}
 	switch strings.TrimSpace(lines[0]) {
@@ -601,4 +604,11 @@ func (s *Solver) oneShotCVC5(extra *Term, wantModel bool, vars []*Term, ms int) 
 		return Sat, model
 	}
 	return Unknown, nil
+}
+
+func firstN(s string, n int) string {
+	if len(s) > n {
+		return s[:n]
+	}
+	return s
 }
